@@ -416,8 +416,8 @@ def oracle(case, impl_line):
     if not impl_line.startswith("OK "):
         return "malformed: unexpected result line %r" % impl_line[:80]
     sp = spec_of(case)
-    if sp[0] == "excluded":
-        return None                      # ellipsis variables matched different lengths
+    if sp[0] in ("excluded", "not-a-quote", "unreadable"):
+        return None                      # ellipsis variables matched different lengths / outside the interface
     try:
         got = R.read(R.unesc(impl_line[3:]))
     except R.ReadError:
